@@ -237,6 +237,7 @@ func classify(hdr []*entry, body []*bodyElem) string {
 
 type replay struct {
 	Part   string `json:"part"`
+	Kind   string `json:"block_kind,omitempty"` // wiring phase only
 	Header []int  `json:"header_entry_indices"`
 	Body   []int  `json:"body_element_indices"`
 }
@@ -310,7 +311,7 @@ func runCase(c *mc.Ctx, cl *collector, p *part, hi, bi int, hl, bl []int, outcom
 	var err error
 	if pn := mc.Try(func() { err = procblock.VerifC19CheckHeaderBodyCorrelation(marsh, hasher, mbhs, b) }); pn != "" {
 		cl.add("correlation:panic", [3]int{len(hl) + len(bl), hi, bi}, func() (map[string]interface{}, replay) {
-			return map[string]interface{}{"panic": pn, "header": hl, "body": bl}, replay{p.name, hl, bl}
+			return map[string]interface{}{"panic": pn, "header": hl, "body": bl}, replay{Part: p.name, Header: hl, Body: bl}
 		})
 		return
 	}
@@ -365,7 +366,7 @@ func runCase(c *mc.Ctx, cl *collector, p *part, hi, bi int, hl, bl []int, outcom
 		}
 		return map[string]interface{}{"header_miniblock_headers": hd, "body_miniblocks": bd,
 				"result": "checkHeaderBodyCorrelation returned nil", "reference": "no bijection header entries <-> body miniblocks with equal hash, sender, receiver, type, tx count"},
-			replay{p.name, append([]int{}, hl...), append([]int{}, bl...)}
+			replay{Part: p.name, Header: append([]int{}, hl...), Body: append([]int{}, bl...)}
 	})
 }
 
@@ -388,13 +389,16 @@ func main() {
 		if !c.Quick() {
 			c.Rule += fmt.Sprintf("; plus menu {correct, Type-perturbed} (%d entries): every header list of <=4 x every body list of <=4", len(parts[1].menu))
 		}
-		c.Rule += ". non-trivial = equal non-zero lengths, no nil, and every body miniblock's hash is listed in the header (the verdict then rests on field comparison and multiplicity)"
+		wp := wiringPart(c, maxLen)
+		c.Rule += fmt.Sprintf("; WIRING phase: block kind {shard block, regular metablock, start-of-epoch metablock} x every header list of <=%d of the %d entries of M0,M1 x every body list of <=%d over {M0,M1,twin of M0} through the real shardProcessor/metaProcessor.ProcessBlock (fresh stub-built processor per case; non-matching pair must not return nil; every non-matching pair is non-trivial)", maxLen, len(wp.menu), maxLen)
+		c.Rule += ". non-trivial (phase 1) = equal non-zero lengths, no nil, and every body miniblock's hash is listed in the header (the verdict then rests on field comparison and multiplicity)"
 		c.Bound = fmt.Sprintf("header and body lists of length <= %d", maxLen)
 		c.Assumptions = []string{
 			"miniblock hash = sha256 of the gogo-proto encoding (production components); the reference recomputes it with the same core.CalculateHash",
 			"two body miniblocks with byte-identical content are distinct list elements; a header must list the hash once per occurrence",
 			"MiniBlockHeader.Reserved is outside the statement and left empty",
-			"the seam is checkHeaderBodyCorrelation itself (ProcessBlock returns its error unchanged); the wiring above it is not exercised",
+			"phase 1 seam is checkHeaderBodyCorrelation itself; phase 2 (wiring) drives the real ProcessBlock of both processors with all collaborators stubbed to accept everything (repository mocks), so only the placement of the correlation check is decided there, not the other block validity checks",
+			"wiring phase: one-shard coordinator (self shard 0), first block after genesis, no nil miniblock in bodies (shardProcessor.ProcessBlock dereferences body miniblocks in a background goroutine before the check)",
 		}
 		cl := &collector{m: map[string]*found{}}
 
@@ -408,6 +412,9 @@ func main() {
 					runCase(c, cl, p, 0, 0, r.Header, r.Body, map[string]struct{}{})
 					c.Eval(1)
 				}
+			}
+			if r.Part == wp.name {
+				replayWiring(c, cl, wp, r)
 			}
 		} else {
 			for _, p := range parts {
@@ -425,6 +432,7 @@ func main() {
 					}
 				})
 			}
+			wiringPhase(c, cl, wp)
 			// a few written-out cases
 			p := parts[0]
 			c.Sample(map[string]interface{}{"menu": func() []string {
